@@ -279,6 +279,17 @@ bool Interp::exec_coll(Interp &I, const Stmt &s)
         I.env[s.dst] = PortVal{out.template as<TS<Int>>().erased(), PT::Int, "ts"};
         return true;
     }
+    if (s.op == "icmp")
+    {
+        // icmp <cmp int ts> <lt> <eq> <gt>    (the first input's residue mod 3 selects lt / eq / gt; stdlib if_cmp, reference-shaped like if_then_else)
+        auto cmp = wire<VToCmp>(w, I.pi(a.at(0)), uid);
+        PortVal x = I.get(a.at(1)), y = I.get(a.at(2)), z = I.get(a.at(3));
+        with_shape(x.shape, [&]<typename S>() {
+            auto out = wire<stdlib::if_cmp>(w, cmp, Port<S>{w, x.ref}, Port<S>{w, y.ref}, Port<S>{w, z.ref});
+            I.env[s.dst] = PortVal{out.template as<S>().erased(), x.type, x.shape};
+        });
+        return true;
+    }
     if (s.op == "crecord" && !s.kwi("sparse", 0))
     {
         PortVal v = I.get(a.at(0));
